@@ -60,7 +60,7 @@ func Compile(grammar *Grammar, opts Options) (*Tables, error) {
 	}
 
 	if opts.MinimizeDFA {
-		minimize(c.out, grammar)
+		minimize(c.out, grammar, c.empty)
 		verifPoint("minimized", grammar, opts, c.out, c.s.Err())
 	}
 	if opts.Optimize {
